@@ -33,6 +33,7 @@ type Spec struct {
 //
 //	create   CreateMany(Specs) with the Retrieve / Overwrite options
 //	rename   RenameMany(Slots, Names)
+//	burst    len(Names) goroutines, each Create(one leased virtual channel named Names[i]) through Node
 //	delete   DeleteMany(Slots)
 //	delname  DeleteManyByNames(Names)
 type Op struct {
@@ -44,6 +45,9 @@ type Op struct {
 	Specs     []Spec   `json:"specs,omitempty"` // create
 	Slots     []int    `json:"slots,omitempty"` // rename / delete targets; a slot nothing was created in denotes a key that never existed
 	Names     []string `json:"names,omitempty"` // rename: new names; delname: names
+	// rename: the allowInternal argument (services rename with true; it only lifts the ban on
+	// renaming internal channels, which these histories do not create: same expected outcome)
+	AllowInternal bool `json:"allow_internal,omitempty"`
 }
 
 type Script struct {
@@ -119,8 +123,16 @@ func (g *gen) op() Op {
 		return g.create()
 	case k < 75:
 		return g.delete()
-	case k < 92:
+	case k < 90:
 		return g.rename()
+	case k < 95:
+		// several clients create channels through one node at the same moment
+		op := Op{Kind: "burst"}
+		g.gateway(&op)
+		for i, n := 0, rapid.IntRange(3, 12).Draw(g.t, "burst-n"); i < n; i++ {
+			op.Names = append(op.Names, g.fresh())
+		}
+		return op
 	default:
 		return g.delname()
 	}
@@ -343,7 +355,7 @@ func (g *gen) delete() Op {
 }
 
 func (g *gen) rename() Op {
-	op := Op{Kind: "rename"}
+	op := Op{Kind: "rename", AllowInternal: rapid.IntRange(0, 2).Draw(g.t, "allow-internal") == 0}
 	g.gateway(&op)
 	targets := g.pickSlots(3)
 	bad := false
